@@ -2,6 +2,6 @@
 EXTENDS Auth, Json, SequencesExt
 KeyCases == {[file |-> f, ref |-> Listed(f), impl |-> {k \in Offered : ImplKeyAccept(f, k)}] : f \in Files}
 ASSUME ndJsonSerialize("c09_keycases.ndjson", SetToSeq(KeyCases))
-PwCases == {[user |-> u, pw |-> pw, addr |-> a, ref |-> RefPwAccept(u, pw, a)] : u \in Users, pw \in Passwords, a \in Addrs}
+PwCases == {[user |-> u, pw |-> pw, addr |-> a, ref |-> RefPwAccept(u, pw, a), must |-> (a \notin IPv6)] : u \in Users, pw \in Passwords, a \in Addrs}
 ASSUME ndJsonSerialize("c09_pwcases.ndjson", SetToSeq(PwCases))
 ==============================================================================
